@@ -71,3 +71,20 @@ Theorem c01_to_render_tree_total_css :
 Proof. exact RenderTotal.c01_to_render_tree_total_css. Qed.
 Print Assumptions c01_to_render_tree_total_css.
 
+
+(* the unwrap in RenderTable::new cannot fail (Proofs/TableRows.v): for every document the DOM ->
+   render tree step never panics at that site (colspan 0 is repaired by the tbody pass first) *)
+From H2T Require Import Base Tagged Wrap Sub Css Dom Render Api CssParse Proofs.CssTotal Proofs.WrapInv Proofs.RenderWidth Proofs.Conserve Proofs.Footnotes Proofs.AnnBalance Proofs.RenderConserve Proofs.OptionRel Proofs.Compose Proofs.RenderTotal Proofs.FragStream Proofs.SimRel Proofs.Prune Proofs.TableRows.
+
+Theorem process_no_panic32_real :
+  forall (sd : styledata) (udc : bool) (n : node) (p : list anc) (idx : Z),
+       process sd udc inline_styles n p idx <> Panic 32.
+Proof. exact TableRows.process_no_panic32_real. Qed.
+Print Assumptions process_no_panic32_real.
+
+Theorem dom_to_render_tree_no_panic32_real :
+  forall (sd : styledata) (udc : bool) (doc : list node),
+       dom_to_render_tree sd udc inline_styles doc <> Panic 32.
+Proof. exact TableRows.dom_to_render_tree_no_panic32_real. Qed.
+Print Assumptions dom_to_render_tree_no_panic32_real.
+
